@@ -419,7 +419,15 @@ def body_is_child(case, note):
         check(h.is_tag_child(obj), "is_tag_child rejects a value that TagList() accepts", repr(obj)[:80], type(obj).__name__)
         for c in all_children(obj, []):
             check(h.is_tag_child(c), "is_tag_child rejects a nested value that TagList() accepts", repr(c)[:80], type(c).__name__)
-    note(True, "kind:" + rec["k"] + (":" + str(type(rec.get("v")).__name__) if rec["k"] == "num" else ""), "accepted" if accepted else "rejected")
+    kinds = set()
+
+    def walk(r):
+        kinds.add("kind:" + r["k"] + (":" + type(r.get("v")).__name__ if r["k"] == "num" else ""))
+        for x in r.get("kids", []) if r["k"] == "list" else []:
+            walk(x)
+
+    walk(rec)
+    note(True, *sorted(kinds), "accepted" if accepted else "rejected")
 
 
 RULE = (
